@@ -209,6 +209,14 @@ class Sim(object):
             ctx.recv_inf = inf
         values = [recv] + args + list(kwargs.values())
         ctx.reach = reachable(values)
+        # the simulated callers never race with themselves: no call may read an object that an
+        # in-flight documented mutator of another task is writing, and nobody assigns an object to itself
+        for o in ctx.reach:
+            inf = self.pool.infoof(o)
+            if inf is not None and inf.xlock:
+                return None
+        if ctx.recv_inf is not None and any(a is recv for a in args + list(kwargs.values())):
+            return None
         ctx.pre = [(o, snap(o)) for o in ctx.reach]
         ctx.clones = CLONE((recv, args, kwargs))
         for o in ctx.reach:
